@@ -90,6 +90,12 @@ def r15_error_class(c, facts, rule='C07.R15'):
 
 def run(c, facts):
     c.run(r15_error_class, facts)
+    import c01 as _c01
+    import c09 as _c09
+    R16 = c.rule('C07.R16', 'CHECK-TOTAL: a kind constraint is applied whenever its position exists, so that acceptance coincides with solvability of the kind constraints (shared with C01.R9)')
+    c.shared(R16, _c01.r9_check_total, 'C01.R9', facts)
+    R17 = c.rule('C07.R17', 'GRAPH-IDENTITY: the cycle verdict is computed on a graph whose nodes are definitions (module and node), not arena indices that depend on where a declaration stands in its file (shared with C09.R4)')
+    c.shared(R17, _c09.r4_graph_complete, 'C09.R4', facts)
     c.run(lambda c: I.reduce_first(c, facts, c.rule('C07.R13', 'REDUCE-FIRST: unify() reduces both operands with the current substitution before inspecting them, in every (recursive) call')))
     import c09
     import c05
